@@ -159,14 +159,14 @@ func writeMap(w io.Writer, m map[string]interface{}, sdl bool, depth, indent int
 		if 0 < indent {
 			_, err = w.Write(i2)
 		}
-		if err == nil && !sdl {
-			_, err = w.Write([]byte{'"'})
-		}
 		if err == nil {
-			_, err = w.Write([]byte(key))
-		}
-		if err == nil && !sdl {
-			_, err = w.Write([]byte{'"'})
+			if sdl && isNameToken(key) {
+				_, err = w.Write([]byte(key))
+			} else {
+				// Keys that are not plain tokens (and all JSON keys) must be
+				// quoted and escaped or the output can not be parsed.
+				err = writeString(w, key, true)
+			}
 		}
 		if err == nil {
 			_, err = w.Write([]byte{':'})
@@ -208,6 +208,15 @@ func writeMap(w io.Writer, m map[string]interface{}, sdl bool, depth, indent int
 		_, err = w.Write([]byte{'\n'})
 	}
 	return
+}
+
+func isNameToken(s string) bool {
+	for _, b := range []byte(s) {
+		if charMap[b] != tokenChar {
+			return false
+		}
+	}
+	return 0 < len(s)
 }
 
 func isCollection(v interface{}) bool {
